@@ -47,9 +47,7 @@ ASSUMPTIONS = [
     'extract_around_indexes: before, after >= 0; documented placement proved for in-range indices, numpy.take wrap-around of '
     'negative positions and IndexError modelled and compared as well',
     'argument forms the unchanged code refuses are not generated: numpy integer scalars as window / distance / widths / before / after / '
-    'threshold, numpy.float32 scalars as height, big-endian data for find_peaks (numba), uint64 index arrays, unsigned data with '
-    'Direction.POSITIVE in find_width (OverflowError under numpy 2), float32 data with a threshold that is not a float32 value '
-    '(numpy 2 compares in float32)',
+    'threshold, numpy.float32 scalars as height, big-endian and float16 data for find_peaks (numba), uint64 index arrays',
 ]
 
 HDR_S = 'From ScaredV Require Import Model.Signal.'
@@ -837,7 +835,7 @@ class PeaksKind(Base):
             'distance 0..len+1 x heights {-inf, negative, below, each value, between, above, +inf}, the dtype cycling through float64, '
             'float32 and the 8 integer dtypes (so integer samples meet fractional and negative heights, given as Python float / int / '
             'numpy.float64); 4-value alphabet sampled (quick) / every signal of length 0..8 (thorough); heights one float64 ulp below / '
-            'on / above the samples; the signal as strided / negative-stride / offset / column / read-only / zero-stride array; plateaus, '
+            'on / above float64 and float32 samples; signed samples containing the dtype minimum; the signal as strided / negative-stride / offset / column / read-only / zero-stride array; plateaus, '
             'ties, peaks at both ends and every last sample are all in that block; random signals of length 10..80 with random '
             'distances and heights; the D10 regression signal; check_fn: candidates only, ascending and >= d apart, every '
             'dropped candidate dominated (property level); corr_fn: equality with the repaired scan (correspondence level); '
@@ -868,12 +866,22 @@ class PeaksKind(Base):
                 n = len(sig)
                 yield self._grid_case(sig, 1, ['int16', 'uint8', 'float64', 'int64'][n % 4], rng.sample(h4, 2), n + 2)
         # heights one float64 ulp away from the samples
-        nu = 40 if tier == 'quick' else 400
-        for _ in range(nu):
+        nu = 60 if tier == 'quick' else 600
+        for k in range(nu):
             n = rng.randint(2, 8)
             sig = [rng.randint(0, 3) for _ in range(n)]
             hs = sorted({h for v in set(sig) for h in _ulp_neighbours(v)})
-            yield self._grid_case([v * ULP_DEN for v in sig], ULP_DEN, 'float64', hs, 4)
+            # float32 samples: the height is not a float32 value (D17: it must not be rounded to the dtype of the data)
+            yield self._grid_case([v * ULP_DEN for v in sig], ULP_DEN, ['float64', 'float32', 'float32'][k % 3], hs, 4)
+        # signed samples containing the lowest value of their dtype
+        for dt in ('int8', 'int16', 'int32', 'int64'):
+            mn = int(np.iinfo(dt).min)
+            for _ in range(4 if tier == 'quick' else 30):
+                n = rng.randint(1, 7)
+                sig = [rng.choice([mn, mn, mn + 1, 0, -1, 3]) for _ in range(n)]
+                c = self._grid_case(sig, 1, dt, ['-inf', mn, mn + 1, -1, 0], n + 2)
+                c['hform'] = 'int'
+                yield c
         # memory layouts
         nl = 6 if tier == 'quick' else 40
         for layout in ['strided', 'neg', 'offset', 'column', 'readonly', 'zerostride']:
@@ -954,7 +962,10 @@ class PeaksKind(Base):
         return {'len': n if n <= 9 else '10+', 'dtype': case['dtype'], 'layout': case.get('layout', 'c'), 'hform': case.get('hform', 'float')}
 
     def tags(self, case, obs):
-        return ['find_peaks']
+        t = ['find_peaks']
+        if case['dtype'] in ('float32', 'float16') and case['den'] == ULP_DEN:
+            t.append('peaks_float32_threshold_rounded')
+        return t
 
     def sample(self, case, obs):
         return {'case': dict(case, queries=case['queries'][:4]), 'observed': {'peaks': obs.get('peaks', [])[:4]}}
@@ -1011,7 +1022,7 @@ def _modes(rng, n, k, boundary=4):
     return out
 
 
-SIGNED_FLOAT = ['float64', 'int16', 'float32', 'int8', 'int32', 'int64']     # Direction.POSITIVE refuses unsigned data (numpy 2)
+WIDTH_DTYPES = ALL_DTYPES + ['float16']
 UNSIGNED = ['uint8', 'uint16', 'uint32', 'uint64']
 
 
@@ -1025,8 +1036,9 @@ class WidthKind(Base):
     rule = ('find_width(data, direction, threshold, min_width[, max_width][, delta]): EVERY signal of length 0..7 (quick) / 0..9 '
             '(thorough) over a 3-value alphabet x both directions x every threshold position (negative, below, on each value, between, '
             'above; Python float / int / numpy.float64) x width modes (min 1, min 2, [1,1], 2+-1 and random valid ones incl. max_width '
-            'with delta), the dtype cycling through float64, float32 and the signed integer widths; unsigned data with '
-            'Direction.NEGATIVE; thresholds one float64 ulp below / on / above the samples; strided / negative-stride / offset / column / '
+            'with delta), the dtype cycling through float64, float32, float16 and the 8 integer widths; unsigned data up to the dtype '
+            'maximum and signed data containing the dtype minimum in both directions; thresholds one float64 ulp below / on / above '
+            'float64 / float32 / float16 samples; strided / negative-stride / offset / column / '
             'read-only / zero-stride / big-endian data; runs touching either end, adjacent runs, whole-signal runs are in that block; '
             'random longer signals; compared with the brute-force enumeration of bracketed maximal runs and with the gap '
             'construction; non-trivial = at least one row returned')
@@ -1038,24 +1050,40 @@ class WidthKind(Base):
             n = len(sig)
             thrs = [-3] + thr3 if n <= 5 else thr3[1:-1]
             modes = _modes(rng, n, 2, boundary=4) if n <= 5 else _modes(rng, n, 2, boundary=2) if n <= 7 else _modes(rng, n, 2, boundary=1)
-            yield {'data': sig, 'den': 2, 'dtype': SIGNED_FLOAT[k % len(SIGNED_FLOAT)], 'grid': {'thrs': thrs, 'modes': modes},
+            yield {'data': sig, 'den': 2, 'dtype': WIDTH_DTYPES[k % len(WIDTH_DTYPES)], 'grid': {'thrs': thrs, 'modes': modes},
                    'tform': ['float', 'np', 'int'][k % 3],
                    'queries': [[dr, t, m] for dr in ('positive', 'negative') for t in thrs for m in modes]}
-        # unsigned samples: only Direction.NEGATIVE is accepted by the code
-        nu = 150 if tier == 'quick' else 1500
+        # unsigned samples (larger values), both directions (D16: Direction.POSITIVE must not negate the data)
+        nu = 120 if tier == 'quick' else 1200
         for k in range(nu):
             n = rng.randint(1, 9)
-            sig = [2 * rng.randint(0, 2) for _ in range(n)]
-            yield {'data': sig, 'den': 2, 'dtype': UNSIGNED[k % 4], 'grid': None, 'tform': ['float', 'np', 'int'][k % 3],
-                   'queries': [['negative', t, m] for t in rng.sample([-3] + thr3, 3) for m in _modes(rng, n, 1, boundary=1)]}
-        # thresholds one float64 ulp away from the samples
-        nu = 40 if tier == 'quick' else 400
-        for _ in range(nu):
+            dt = UNSIGNED[k % 4]
+            top = int(np.iinfo(dt).max) if dt != 'uint64' else 2 ** 53
+            pool = [0, 5, 200, top, top - 1]
+            sig = [rng.choice(pool) for _ in range(n)]
+            thrs = rng.sample([-1, 0, 5, 100, 200, top - 1, top], 3)
+            modes = _modes(rng, n, 1, boundary=1)
+            yield {'data': sig, 'den': 1, 'dtype': dt, 'grid': {'thrs': thrs, 'modes': modes}, 'tform': ['int', 'float', 'np'][k % 3],
+                   'queries': [[dr, t, m] for dr in ('positive', 'negative') for t in thrs for m in modes]}
+        # signed samples containing the lowest value of their dtype (D16: -data wraps there)
+        for dt in ('int8', 'int16', 'int32', 'int64'):
+            mn = int(np.iinfo(dt).min)
+            for _ in range(12 if tier == 'quick' else 120):
+                n = rng.randint(1, 8)
+                sig = [rng.choice([mn, mn, mn + 1, 0, -1, 3]) for _ in range(n)]
+                thrs, modes = [mn, mn + 1, -1, 0], _modes(rng, n, 1, boundary=1)
+                yield {'data': sig, 'den': 1, 'dtype': dt, 'grid': {'thrs': thrs, 'modes': modes}, 'tform': 'int',
+                       'queries': [[dr, t, m] for dr in ('positive', 'negative') for t in thrs for m in modes]}
+        # thresholds one float64 ulp away from the samples; float32 / float16 samples: the threshold is not a value of the
+        # dtype of the data (D17: it must not be rounded to that dtype)
+        nu = 60 if tier == 'quick' else 600
+        for k in range(nu):
             n = rng.randint(2, 8)
             sig = [rng.randint(0, 3) for _ in range(n)]
             thrs = sorted({h for v in set(sig) for h in _ulp_neighbours(v)})
             modes = _modes(rng, n, 1, boundary=1)
-            yield {'data': [v * ULP_DEN for v in sig], 'den': ULP_DEN, 'dtype': 'float64', 'grid': {'thrs': thrs, 'modes': modes},
+            yield {'data': [v * ULP_DEN for v in sig], 'den': ULP_DEN, 'dtype': ['float64', 'float32', 'float16'][k % 3],
+                   'grid': {'thrs': thrs, 'modes': modes},
                    'queries': [[dr, t, m] for dr in ('positive', 'negative') for t in thrs for m in modes]}
         # memory layouts
         nl = 6 if tier == 'quick' else 40
@@ -1064,7 +1092,7 @@ class WidthKind(Base):
                 n = rng.randint(2, 9)
                 sig = [2 * rng.randint(0, 2) for _ in range(n)] if layout != 'zerostride' else [2 * rng.randint(0, 2)] * n
                 thrs, modes = [0, 1, 2, 3], _modes(rng, n, 1, boundary=2)
-                yield {'data': sig, 'den': 2, 'dtype': ['float64', 'int16', 'float32', 'int64'][k % 4], 'grid': {'thrs': thrs, 'modes': modes},
+                yield {'data': sig, 'den': 2, 'dtype': ['float64', 'int16', 'float32', 'uint16', 'int64', 'uint8'][k % 6], 'grid': {'thrs': thrs, 'modes': modes},
                        'layout': layout, 'queries': [[dr, t, m] for dr in ('positive', 'negative') for t in thrs for m in modes]}
         nl = 300 if tier == 'quick' else 6000
         for k in range(nl):
@@ -1083,7 +1111,7 @@ class WidthKind(Base):
             dtype = rng.choice(['float64', 'float32'])
             if k % 2 == 0:        # integer samples, thresholds on half-integers as well
                 sig = [den * v for v in sig]
-                dtype = rng.choice(['int32', 'int16', 'int64', 'int8'])
+                dtype = rng.choice(['int32', 'int16', 'int64', 'int8'] + (UNSIGNED if min(sig) >= 0 else []))
             qs = [[rng.choice(['positive', 'negative']), rng.randint(min(sig) - 1, max(sig) + 1), m] for m in _modes(rng, min(n, 10), 3)]
             yield {'data': sig, 'den': den, 'dtype': dtype, 'queries': qs, 'grid': None, 'tform': ['float', 'np', 'int'][k % 3],
                    'layout': rng.choice(['c', 'c', 'strided', 'neg', 'offset'])}
@@ -1149,7 +1177,14 @@ class WidthKind(Base):
                 'layout': case.get('layout', 'c'), 'tform': case.get('tform', 'float')}
 
     def tags(self, case, obs):
-        return ['find_width']
+        t = ['find_width']
+        positive = any(q[0] == 'positive' for q in case['queries'])
+        if positive and (case['dtype'].startswith('uint')
+                         or (case['dtype'].startswith('int') and case['den'] == 1 and int(np.iinfo(case['dtype']).min) in case['data'])):
+            t.append('find_width_sign_multiplication_overflow')
+        if case['dtype'] in ('float32', 'float16') and case['den'] == ULP_DEN:
+            t.append('peaks_float32_threshold_rounded')
+        return t
 
     def sample(self, case, obs):
         return {'case': dict(case, queries=case['queries'][:4]), 'observed': {'rows': obs.get('rows', [])[:4]}}
@@ -1169,7 +1204,7 @@ class WidthKind(Base):
         n = 60 if tier == 'quick' else 500
         for k in range(n):
             m = rng.randint(3, 12)
-            dtype = ['float64', 'int16', 'float32', 'int64', 'int8'][k % 5]
+            dtype = ['float64', 'int16', 'float32', 'uint8', 'int8', 'uint32', 'float16'][k % 7]
             s0 = [2 * rng.randint(0, 2) for _ in range(m)]
             s1 = list(s0)
             for _ in range(rng.randint(1, 3)):
